@@ -180,7 +180,7 @@ Ordinals(e)  == Enums[e].base .. (Enums[e].base + Len(Enums[e].labels) - 1)
 Ordinal(e, label) == Enums[e].base - 1 + CHOOSE i \in DOMAIN Enums[e].labels : Enums[e].labels[i] = label
 LabelOf(e, o) == Enums[e].labels[o - Enums[e].base + 1]
 \* the ordinals just outside each table (and -1, which is 5 bytes on the wire)
-OutsideOrdinals(e) == {Enums[e].base - 1, Enums[e].base + Len(Enums[e].labels), -1}
+OutsideOrdinals(e) == {Enums[e].base - 1, Enums[e].base + Len(Enums[e].labels), -1, -2, 0 - Len(Enums[e].labels)} \ Ordinals(e)
 
 (* ---------------------------------------------------------------------------------------------------- *)
 (* field types.  A field is [n |-> name, t |-> type, e |-> enum name or "", lim |-> UTF-16 unit limit]    *)
